@@ -81,7 +81,7 @@ def case_strategy(draw: Any) -> Dict[str, Any]:
             ops.append({"op": kind, "dt": draw(st.sampled_from([0.05, 0.5, 2.0]))})
         elif kind in ("prio", "prio_same"):
             s_ = ops[-1]["s"] if kind == "prio_same" else draw(st.integers(0, n - 1))
-            ops.append({"op": kind, "s": s_,
+            ops.append({"op": "prio", "s": s_,
                         "dep": draw(st.integers(0, s_)), "weight": draw(st.integers(1, 256)),
                         "excl": draw(st.booleans())})
         else:
@@ -391,8 +391,15 @@ async def scenario(env: Any, case: Dict[str, Any]) -> Dict[str, Any]:
         await absorb()
     # ---- quiescent point: nothing that could be sent is held back
     client.flush()  # (a last operation marked "join" has nothing to join)
-    await env.settle(60.0)
-    await absorb()
+    for _ in range(20):
+        # absorbing what the server sent can itself make the client speak (the h2 library
+        # returns connection credit for DATA of streams it has reset): quiescent only once the
+        # client has nothing more to say
+        sent_before = len(getattr(client, "tx", b""))
+        await env.settle(60.0)
+        await absorb()
+        if len(getattr(client, "tx", b"")) == sent_before:
+            break
     stuck = []
     if not led.pending:
         for i, sid in enumerate(sids):
